@@ -215,6 +215,21 @@ def oracle(run, name, f, truth, meths, degenerate_case=False):
                         theorem="C08_fallback")
         if degenerate_case:
             continue
+        # the same values stored as float32 / as a list / in a strided view
+        f32 = f.astype(np.float32)
+        for tag, arr in [("float32", f32),
+                         ("list", [float(v) for v in f32]),
+                         ("strided", np.repeat(f32.astype(float), 2)[::2])]:
+            want_ = call(f32.astype(float), m)
+            try:
+                got_ = call(arr, m)
+            except BaseException as e:
+                got_ = f"{type(e).__name__}: {e}"
+            if got_ != want_:
+                run.failing(SITE, key + f"|storage:{tag}", f"{cfg}: the same "
+                            f"values given as {tag} -> {got_!r}, as a "
+                            f"float64 array -> {want_!r}",
+                            payload={"kind": "rerun"}, theorem="C08_valid_*")
         for c, s, exact in [(2.0 ** -20, 0.0, True), (8.0, 0.0, True),
                             (1024.0, 0.0, True), (3.7, 0.0, False),
                             (1.0, 1e-9, False), (0.013, -3e-10, False)]:
